@@ -9,7 +9,7 @@ from vlib.runner import Result
 ID = 'C16'
 RULE = ('Cases = generated multi-instrument scene (layered, merge_chain with per-instrument offsets, split_candidate, '
         'ref_window, exact_counts) x a drawn one-to-one renaming (order-reversing, names that sort differently as '
-        "strings such as '9'/'10', prefix pairs 'a'/'aa', long and non-ASCII names, swaps among the existing names) "
+        "strings such as '9'/'10', prefix pairs 'a'/'aa', long and non-ASCII names, names padded with blanks / tabs, swaps among the existing names) "
         'applied to the frame and to EXCLUDE_FOR_BASE_HEIGHT_CALC x look-back / percentile / exclusion / MSA. '
         'Metamorphic oracle, bit-exact: the snapshot (three tables, three messages, flag, chunk.data with per-hit '
         'assignments) of the renamed run with the names mapped back equals the snapshot of the original run; the '
@@ -34,9 +34,16 @@ def strategy_(draw):
     case = draw(S.pipeline_case(WEIGHTS, vary=('msa', 'okta', 'sep', 'base'), p_default_prms=0.1,
                                 base_p_default=0.1, anomalies=True, anomaly_negative=False))
     names = sorted(set(r[0] for r in case['rows']))
-    how = draw(st.sampled_from(['reverse', 'swap', 'fresh', 'fresh', 'fresh']))
+    how = draw(st.sampled_from(['reverse', 'swap', 'fresh', 'fresh', 'fresh', 'padded']))
     if how == 'swap' and len(names) >= 2:
         new = list(draw(S.permutation(names)))
+    elif how == 'padded':
+        # the same names with leading / trailing blanks or tabs: spelling must not matter
+        pads = draw(st.lists(st.sampled_from([' {}', '{} ', '\t{}', '{}\n', '  {}  ', '{}']), min_size=len(names),
+                             max_size=len(names)))
+        new = [p.format(n) for p, n in zip(pads, names)]
+        if len(set(new)) < len(new):
+            new = [f' {n}' for n in names]
     elif how == 'reverse':
         fresh = sorted(draw(st.lists(st.sampled_from(TARGETS), min_size=len(names), max_size=len(names),
                                      unique=True)), reverse=True)
